@@ -323,3 +323,28 @@ class next_(ContractBase):
         P = c.old.g('DBI.tables.prime')
         return {'greater-than-every-stored-run': Implies(Not(PRIMET.opt.is_none(P[k])), c.result > part('run', k)),
                 'first-run-is-1': Implies(P == PRIMET.empty(), c.result == 1)}
+
+
+# ------------------------------------------------------------------------------------------------ replay of construct()
+def _construct_replay(model, vc):
+    """name, parent id and version of the solver's model through the real util.construct, compared with the documented format"""
+    import dawgie.db.shelve.util as util
+    ev = lambda t: model.eval(t, model_completion=True)
+    OI_, OV = Opt(INT), Opt(VER)
+    try:
+        name = ev(vc.inputs['name']).as_string()
+    except Exception:
+        return None
+    p_t, v_t = vc.inputs['parent'], vc.inputs['ver']
+    parent = None if z3.is_true(ev(OI_.is_none(p_t))) else ev(OI_.val(p_t)).as_long()
+    ver = None
+    if not z3.is_true(ev(OV.is_none(v_t))):
+        heap = z3.Array('H_Version._version_', VER.sort(), VERSION.sort())
+        t = heap[OV.val(v_t)]
+        ver = util.LocalVersion('%d.%d.%d' % tuple(abs(ev(VERSION.get(t, f)).as_long()) for f in ('design', 'impl', 'bugfix')))
+    got = util.construct(name, parent, ver)
+    want = ('' if parent is None else str(parent) + ':parent___') + name + ('' if ver is None else '___version:' + ver.asstring())
+    return {'reproduced': got != want, 'input': {'name': name, 'parent': parent, 'version': ver.asstring() if ver else None}, 'observed': got, 'expected': want}
+
+
+construct.replay = staticmethod(_construct_replay)
